@@ -1,0 +1,14 @@
+//go:build verif
+
+// Contracts for the deductive verifier under /verif (comment-only file: it
+// adds no code; compiled only with -tags verif).
+package index
+
+// C19: rollback comparison. nil means "not older than the high-water mark".
+//verif:func CheckRollback(fetchedVersion, highWaterMark) (err)
+//verif:ensures[refuses-older] fetchedVersion < highWaterMark ==> err != nil
+//verif:ensures[accepts-not-older] fetchedVersion >= highWaterMark ==> err == nil
+//verif:modifies nothing
+
+//verif:func SaveState(path, s) (err)
+//verif:call[atomic-write] atomicfile.WriteFile requires arg0 == path
